@@ -1,4 +1,106 @@
 import Ptn.C01.Model
-/-! Property theorems for C01. Only property theorems and non-vacuity examples live here. -/
+import Ptn.C01.Lemmas
+/-! Property theorems for C01 (Hamiltonian → state diagram → operator is exact).  Only property theorems
+and non-vacuity examples live here; helper lemmas are in `Lemmas.lean`.
+
+What is covered: identity padding, `SingleTermDiagram.from_single_term`, `sum_states` and the
+uncompressed construction (`TTNOFinder.BASE`) denote exactly Σ_k c_k ⊗_sites A_k, for every tree (any
+branching, any child order, any dimensions) and every Hamiltonian (any number of terms, supports,
+repeated or proportional terms, rational prefactors, symbols).  The compressing constructions (SGE,
+BIPARTITE, TREE) are not modelled (two of them are false of the code for repeated terms / unequal
+coefficients: F-C01a, F-C01b); they are decided per input by the harness. -/
 namespace Ptn.C01
+
+/-- Identity padding: a site the term acts on keeps its label, every other site gets the symbolic
+    identity of its own dimension. -/
+theorem pad_spec (ops : List (Nat × String)) (i dim : Nat) :
+    (∀ l, ops.lookup i = some l → padLabel ops i dim = l) ∧
+    (ops.lookup i = none → padLabel ops i dim = "I" ++ toString dim) := by
+  unfold padLabel
+  constructor
+  · intro l h; rw [h]
+  · intro h; rw [h]
+
+/-- The padded assignment of a term names every node of the tree exactly once, in preorder. -/
+theorem asg_covers (ops : List (Nat × String)) (t : RTree) :
+    (asgOf ops t).map Prod.fst = t.ids := asgOf_ids ops t
+
+/-- A single-term diagram denotes exactly that term: for every tree, every label assignment and every
+    coefficient pair there is exactly one consistent choice of hyperedges, its label assignment is the
+    padded term and its weight is `coef · sym` (the coefficient sits on the root hyperedge, all
+    others carry `1 · "1"`). -/
+theorem single_term_denote (t : RTree) (tm : Term) :
+    sdDenote (singleTerm t tm) = [termMono t tm] := by
+  have := denote_singleAt tm.ops tm.coef tm.sym true t
+  simpa [sdDenote, singleTerm, termMono] using this
+
+/-- `sum_states` denotes the sum: for any two well-formed diagrams on the same tree. -/
+theorem sum_states_denote (d1 d2 : SD) (w1 : d1.WF) (w2 : d2.WF) (ss : SameShape d1 d2) :
+    sdDenote (sumSD d1 d2) = sdDenote d1 ++ sdDenote d2 := by
+  simp only [sdDenote]
+  rw [denoteAt_sum d1 d2 w1 w2 ss none]
+  rfl
+
+/-- … and is again a well-formed diagram on that tree (every hyperedge names existing vertices, so
+    the tensor filling writes inside the allocated tensors). -/
+theorem sum_states_wf (d1 d2 : SD) (w1 : d1.WF) (w2 : d2.WF) (ss : SameShape d1 d2) :
+    (sumSD d1 d2).WF ∧ SameShape (sumSD d1 d2) d1 :=
+  ⟨sumSD_WF d1 d2 w1 w2 ss, sumSD_sameShape d1 d2 d1 ss (sameShape_refl d1)⟩
+
+/-- **The uncompressed method is exact**: for every tree and every Hamiltonian (duplicates,
+    proportional terms, any coefficients included) the diagram built by `from_hamiltonian_base`
+    denotes the formal sum Σ_k c_k ⊗_sites A_k of the padded terms, summand by summand. -/
+theorem base_exact (t : RTree) (terms : List Term) (d : SD) (h : baseDiagram t terms = some d) :
+    sdDenote d = hamDenote t terms := by
+  cases terms with
+  | nil => simp [baseDiagram] at h
+  | cons tm rest =>
+    simp only [baseDiagram, Option.some.injEq] at h
+    subst h
+    have w0 : (singleTerm t tm).WF := singleAt_WF _ _ _ true t
+    have := (fold_sum_denote t tm rest (singleTerm t tm) w0 (sameShape_refl _)).2.2
+    rw [this, single_term_denote]
+    rfl
+
+/-- The same as a statement about the finitely supported map (assignment, monomial) ↦ coefficient. -/
+theorem base_exact_coeff (t : RTree) (terms : List Term) (d : SD) (h : baseDiagram t terms = some d)
+    (a : List (Nat × String)) (m : List String) :
+    coeffOf (sdDenote d) a m = coeffOf (hamDenote t terms) a m := by
+  rw [base_exact t terms d h]
+
+/-- The construction succeeds for every non-empty Hamiltonian and its result is well-formed. -/
+theorem base_defined (t : RTree) (tm : Term) (rest : List Term) :
+    ∃ d, baseDiagram t (tm :: rest) = some d ∧ d.WF := by
+  refine ⟨_, rfl, ?_⟩
+  exact (fold_sum_denote t tm rest (singleTerm t tm) (singleAt_WF _ _ _ true t) (sameShape_refl _)).1
+
+/-! ### Non-vacuity: concrete instances -/
+
+/-- A branched tree with a dimension-1 node, child order as given. -/
+def exTree : RTree := .node 0 2 [.node 2 3 [], .node 1 2 [.node 3 1 []]]
+def exT1 : Term := ⟨2 / 3, "g", [(0, "A"), (3, "B")]⟩
+def exT2 : Term := ⟨-5, "1", [(2, "C")]⟩
+
+example : sdDenote (singleTerm exTree exT1) =
+    [⟨2 / 3, ["g"], [(0, "A"), (2, "I3"), (1, "I2"), (3, "B")]⟩] := by decide +kernel
+
+-- a Hamiltonian with a repeated term: the uncompressed diagram keeps the multiplicity
+example : (baseDiagram exTree [exT1, exT2, exT1]).map sdDenote =
+    some [⟨2 / 3, ["g"], [(0, "A"), (2, "I3"), (1, "I2"), (3, "B")]⟩,
+          ⟨-5, [], [(0, "I2"), (2, "C"), (1, "I2"), (3, "I1")]⟩,
+          ⟨2 / 3, ["g"], [(0, "A"), (2, "I3"), (1, "I2"), (3, "B")]⟩] := by decide +kernel
+
+example : coeffOf (hamDenote exTree [exT1, exT2, exT1])
+    [(0, "A"), (2, "I3"), (1, "I2"), (3, "B")] ["g"] = 4 / 3 := by decide +kernel
+
+-- hypotheses of `sum_states_denote` are satisfiable by non-trivial diagrams
+example : (singleTerm exTree exT1).WF ∧ (singleTerm exTree exT2).WF ∧
+    SameShape (singleTerm exTree exT1) (singleTerm exTree exT2) :=
+  ⟨singleAt_WF _ _ _ true _, singleAt_WF _ _ _ true _, singleAt_sameShape _ _ _ _ _ _ true _⟩
+
+-- `denoteAt` is not vacuously empty on malformed input only: an inconsistent pair of hyperedges
+-- (vertex 1 toward the child, but the child's only hyperedge sits on vertex 0) denotes nothing
+example : sdDenote (.node 0 0 [⟨"A", 1, "1", none, [1]⟩] [.node 1 2 [⟨"B", 1, "1", some 0, []⟩] []]) = [] := by
+  decide +kernel
+
 end Ptn.C01
